@@ -357,7 +357,8 @@ pub fn make_proposal(ctr: u64, client: Address, provider: Address, start: ChainE
         label: Label::String(label.to_string()),
         start_epoch: start,
         end_epoch: start + dur,
-        storage_price_per_epoch: TokenAmount::from_atto(1_000_003u64 + 7919 * ctr),
+        // one deal in seven is free (a zero price is legal)
+        storage_price_per_epoch: if ctr % 7 == 3 { TokenAmount::zero() } else { TokenAmount::from_atto(1_000_003u64 + 7919 * ctr) },
         provider_collateral: fil(1) + TokenAmount::from_atto(104_729 * (ctr + 1)),
         client_collateral: TokenAmount::from_atto(15_485_863u64 * (ctr + 1)),
     }
